@@ -149,6 +149,14 @@ def apply_kani_overlay(scr, unit):
         src = m["text"] if "text" in m else open(os.path.join(VERIF, "contracts", "kani", m["src"])).read()
         for k, v in m.get("subst", {}).items():
             src = src.replace(k, v)
+        # the same module text is appended to a file only once per scratch copy (several units may share a fixture or a witness module)
+        done = getattr(scr, "_modules_done", None)
+        if done is None:
+            done = scr._modules_done = set()
+        key = (m["file"], hash(src))
+        if key in done:
+            continue
+        done.add(key)
         with open(p, "a") as f:
             f.write("\n" + src)
         added += src.count("\n") + 1
